@@ -62,8 +62,8 @@ theorem wf_step (s : St) (e : Ev) (hi : Inv1 s) (hw : WF s) : WF (step .repaired
       rw [connectionLost_early s hb]
       constructor <;> (split <;> simp_all [fire])
     · exact ⟨w1, w2, w3⟩
-  | helloReply =>
-    simp only [step]
+  | helloReply named =>
+    simp only [step, repaired_helloNeedsName, if_true]
     split
     · rename_i hp
       split
@@ -71,12 +71,15 @@ theorem wf_step (s : St) (e : Ev) (hi : Inv1 s) (hw : WF s) : WF (step .repaired
         have he := w1 (by simp [hp]) (by simp [hp])
         obtain ⟨hpo, hdc⟩ := w2 hp
         have htm := hi.quiet (by simp [hp, Phase.concluded])
-        refine ⟨by simp [fire], by simp [fire], ?_⟩
-        intro _
-        refine ⟨⟨?_, ?_⟩, ?_, ?_, ?_, ?_, ?_, ?_, ?_, ?_, ?_⟩
-        · exact hpo.1.sublist ((removeCall_sublist c.serial s.pending).map _)
-        · intro d hd; exact hpo.2 d ((removeCall_sublist c.serial s.pending).subset hd)
-        all_goals simp_all [fire]
+        cases named
+        · -- no bus name: the attempt failed, nothing else changes
+          constructor <;> simp_all [fire]
+        · refine ⟨by simp [fire], by simp [fire], ?_⟩
+          intro _
+          refine ⟨⟨?_, ?_⟩, ?_, ?_, ?_, ?_, ?_, ?_, ?_, ?_, ?_⟩
+          · exact hpo.1.sublist ((removeCall_sublist c.serial s.pending).map _)
+          · intro d hd; exact hpo.2 d ((removeCall_sublist c.serial s.pending).subset hd)
+          all_goals simp_all [fire]
       · exact ⟨w1, w2, w3⟩
     · exact ⟨w1, w2, w3⟩
   | helloError =>
